@@ -246,6 +246,21 @@ class Run:
                 return
         if r.status == o.expect:
             return
+        if r.status == "unsat" and o.expect == "sat" and o.replay is not None:
+            # a non-vanishing / satisfiability claim refuted by the solver: replay decides
+            try:
+                ok, detail = o.replay({})
+            except Exception as e:
+                ok, detail = False, f"replay error: {e}"
+            info = {"obligation": o.name, "kind": o.kind, "meta": o.meta, "replay_detail": detail,
+                    "replayed": ok, "solver": "unsat where a satisfying point was required"}
+            path = self._write_cex(o, info)
+            if ok:
+                self.violations.append((o.name, path))
+            else:
+                self.inconclusive.append(f"{o.name}: required witness does not exist (unsat) and the replay "
+                                         f"did not reproduce a violation: {str(detail)[:300]}")
+            return
         if r.status in ("sat", "unsat") and o.expect == "sat":
             # vacuity twin not reachable: the harness is wrong, not the code
             self.inconclusive.append(f"{o.name}: reachability witness came back {r.status}")
